@@ -25,6 +25,9 @@ structure Family (σ : Type) where
   step : σ → Json → Except String (σ × Json × List Fired)
   /-- when false the model's `out` is not compared (monitor-only families) -/
   compare : Bool := true
+  /-- after a DIFF: rebuild the model state from the implementation's observation (the line) so that the
+      spec monitors keep watching the implementation's own trajectory; without it the case is skipped -/
+  resync : Option (σ → Json → Except String σ) := none
 
 def jget (j : Json) (k : String) : Except String Json :=
   match j.getObjVal? k with
@@ -141,12 +144,18 @@ partial def driverLoop {σ : Type} (fam : Family σ) (h : IO.FS.Stream) (st : σ
         driverLoop fam h st { c with errors := c.errors + 1, poisoned := true } maxReport
       | .ok (st', mout, fired) =>
         let mut c := c
+        let mut st' := st'
         if fam.compare then
           let iout := (j.getObjVal? "out").toOption.getD Json.null
           if !jsonEq iout mout then
             if c.diffs < maxReport then
               IO.println s!"DIFF {lineNo} impl={iout.compress} model={mout.compress}"
-            c := { c with diffs := c.diffs + 1, poisoned := true }
+            match fam.resync with
+            | some f =>
+              match f st' j with
+              | .ok st'' => st' := st''; c := { c with diffs := c.diffs + 1 }
+              | .error _ => c := { c with diffs := c.diffs + 1, poisoned := true }
+            | none => c := { c with diffs := c.diffs + 1, poisoned := true }
         for f in fired do
           if c.monitors < maxReport then
             IO.println s!"MONITOR {lineNo} {f.name} {f.detail.compress}"
